@@ -3,8 +3,8 @@
            slice/index an explicit Panic outcome; cryptography abstract (quantified functions), toy instantiation in the
            Examples and in the correspondence run (recvharness c09 plugs the same toy functions into a real instance). *)
 From Coq Require Import NArith ZArith List Bool Lia.
-From Opcua Require Import Model.RecvBase Model.RecvCrypto Model.RecvMerge Model.RecvFrame
-  Proofs.RecvBaseProofs Proofs.RecvCryptoProofs Proofs.RecvFrameProofs.
+From Opcua Require Import Model.RecvBase Model.RecvCrypto Model.RecvMerge Model.RecvChan Model.RecvFrame
+  Proofs.RecvBaseProofs Proofs.RecvCryptoProofs Proofs.RecvChanProofs Proofs.RecvFrameProofs.
 Import ListNotations.
 Open Scope Z_scope.
 
@@ -112,6 +112,16 @@ Proof.
   - apply IH. now rewrite read_frame_mode.
 Qed.
 
+(* Instance table (Model.RecvChan): an OpenSecureChannel exchange that FAILS — e.g. the key derivation refuses a null or empty
+   peer nonce — publishes nothing: whatever was accepted afterwards was accepted before.  In particular the asymmetric
+   algorithm keyed to the certificate carried in the OPN chunk itself never becomes a way to get MSG chunks accepted. *)
+Theorem C09_failed_open_publishes_nothing : forall s c t k chan key,
+  accepts (cstep true s (OpenFailed c t k)) chan key = true -> accepts s chan key = true.
+Proof.
+  intros s c t k chan key H. apply accepts_spec in H. destruct H as (i & Hin & Hk).
+  apply accepts_spec. exists i. split; [|exact Hk]. cbn [cstep] in Hin. now apply sweep_sub in Hin.
+Qed.
+
 (* The defect that was repaired (fixed: see known_findings.txt): without the length guards a 20-byte MSG chunk on a Sign
    channel with 32-byte signatures panics (slice bounds out of range [-12:]). *)
 Definition no_panic_without_guards : Prop := forall dec verify rsl lsl mode policy_none r p,
@@ -146,4 +156,5 @@ Print Assumptions C09_authentic.
 Print Assumptions C09_only_peer_chunks.
 Print Assumptions C09_tampered_rejected.
 Print Assumptions C09_channel_never_raw.
+Print Assumptions C09_failed_open_publishes_nothing.
 Print Assumptions C09_prefix_refuted.
